@@ -20,6 +20,24 @@ Proof. intros [[] [] [] [] [] [] [] []]; vm_compute; reflexivity. Qed.
 Lemma clean_run_checked : forall c, clean_run_ok c = true.
 Proof. intros [[] [] [] [] [] [] [] []]; vm_compute; reflexivity. Qed.
 
+(* the result buffer directory is removed on EVERY path — wherever the run fails, or not at
+   all — and where in the trace: after it was made, after the failing step and the traceback,
+   before the tmp directory goes and before the log file / JSON / HDF5 are written *)
+Lemma buffer_cleaned_checked : forall c fail, buffer_cleaned c fail = true.
+Proof. intros [[] [] [] [] [] [] [] []] [[]|]; vm_compute; reflexivity. Qed.
+
+Lemma buffer_cleaned_unfold : forall c fail,
+  let tr := fst (run_mapping c fail) in
+  has_eff 3 tr = true /\ has_eff 10 tr = true /\ before 3 10 tr = true /\
+  (snd (run_mapping c fail) = true -> before 12 10 tr = true /\ before 13 10 tr = true /\ before 10 19 tr = true) /\
+  (has_tmp c = true -> before 10 14 tr = true) /\
+  (has_log_path c = true -> before 10 16 tr = true) /\
+  (has_json c = true -> before 10 17 tr = true) /\
+  (has_hdf5 c = true -> before 10 18 tr = true).
+Proof.
+  intros [[] [] [] [] [] [] [] []] [[]|]; vm_compute; repeat split; intros; try reflexivity; discriminate.
+Qed.
+
 (* C14, mapping: a failing worker (any schedule, any of the two inspectors' worlds) makes the
    assignment step raise, and then the effect trace is that of a failed run *)
 Theorem mapping_effects : forall (c : cfg) (W : world) (n k : nat),
